@@ -14,7 +14,7 @@ pub fn def() -> CheckDef {
         bounds_quick: "lax diagrams with <=3 nodes, <=2 hyperedges of arity <=2, interfaces <=2 (<=6 node references), without pending pairs (image) and with 1 pending pair (refusal); functor families: doubling, erasing, label-dependent lengths 0/1/2, composite image carrying pending unifications (built by lax composition and imperatively), spider-only image; all wirings enumerated, labels symbolic",
         bounds_thorough: "<=4 nodes, <=8 node references",
         jobs,
-        budget_s: (150, 1500),
+        budget_s: (110, 1500),
     }
 }
 
